@@ -548,19 +548,12 @@ def merge_sources(cs, info):
 
 # --------------------------------------------------------------------------- known findings
 NONBINDING_NAMES = {"inf", "infinity", "constants"}      # + every built-in name (filled in main)
-OUTPUT_NAME_LINE = re.compile(r"^\s*output\s+([A-Za-z_][A-Za-z0-9_]*)\s*(//.*)?$")
 
 
 def known_class(case, expect=None):
-    """mirror of Properties/C19.v (known_noscript_outfile, binding_decl): which open known-finding class
-    an invocation falls in.  F33 is decided on the script text: some `output x` line names an x that can
-    never be a binding."""
-    if case["mode"] == "noscript":
-        return "F34" if case["out_file"] else None
-    for line in case["script"].split("\n"):
-        m = OUTPUT_NAME_LINE.match(line)
-        if m and m.group(1) in NONBINDING_NAMES:
-            return "F33"
+    """which OPEN known-finding class an invocation falls in.  There is none at present: F33
+    (`output x` for an x that is not a binding) and F34 (no script + -o) are fixed in /repo and in the
+    model, so a regression of either is reported as a VIOLATION (witnesses: corpus/C19/cases.json)."""
     return None
 
 
